@@ -4,7 +4,7 @@ import re
 
 from . import gen_expr as ge
 from . import gen_hostile as gh
-from . import mon
+from . import lex, mon
 from .numfmt import DEFAULT_SEP
 
 SPEC = {
@@ -68,7 +68,7 @@ def percent_line(rng):
     return line, spans
 
 
-def structured(rng):
+def structured(rng, marker='#'):
     """-> (line, [(start, end, kind)]) with character offsets"""
     if rng.random() < 0.1:
         return percent_line(rng)
@@ -127,7 +127,7 @@ def structured(rng):
     if rng.random() < 0.3:
         line += ' ' * rng.randint(0, 2)
         start = len(line)
-        line += '#' + rng.choice([' not', ' çay 12 + 5', '', ' 日本 march 5', ' €'])
+        line += marker + rng.choice([' not', ' çay 12 + 5', '', ' 日本 march 5', ' €'])
         spans.append((start, len(line), 'Comment'))
     return line, spans
 
@@ -189,6 +189,12 @@ def run_shard(ctx):
                 res.violation(sig, '%r on a calculator with the user units "lvl N" / "N tier": %s' % (line, why),
                               {'lang': 'en', 'text': line, 'tokens': ui, 'ops': [{'op': 'opts', 'ui': True}] + fam_setup + [{'op': 'execute', 'c': 8, 'lang': 'en', 'text': line}]})
         items, meta = [], []
+        # one batch in ten on a calculator built from the configuration text with a second comment marker ('//' or ';;') in parse.comment
+        marker = rng.choice(['//', ';;']) if rng.random() < 0.1 else '#'
+        comment_edits = None
+        if marker != '#':
+            comment_edits = [['/parse/comment', lex.config()['parse']['comment'] + ['(?P<COMMENT>%s[^\r\n]{0,})[\r\n]{0,}' % marker]]]
+            res.count('batches_with_a_second_comment_marker_in_the_configuration_text')
         for _ in range(150):
             r = rng.random()
             lang = rng.choice(['en', 'en', 'tr'])
@@ -226,7 +232,7 @@ def run_shard(ctx):
                     spans = [(a + off, b + off, k) for a, b, k in spans]
                 meta.append((lang, line, 'structured-very-long', spans))
             elif r < 0.45:
-                line, spans = structured(rng)
+                line, spans = structured(rng, marker)
                 meta.append((lang, line, 'structured', spans))
             elif r < 0.75:
                 line = gh.unicode_line(rng) if rng.random() < 0.7 else rng.choice(gh.corpus())
@@ -235,7 +241,7 @@ def run_shard(ctx):
             else:
                 line = re.split(r'\r\n|\n', gh.hostile_line(rng))[0][:300]
                 meta.append((lang, line, 'hostile', None))
-        rs = mon.run_lines(drv, cfg, [(m[0], m[1]) for m in meta])
+        rs = mon.run_lines(drv, cfg, [(m[0], m[1]) for m in meta], config_edits=comment_edits)
         for (lang, line, cls, spans), r in zip(meta, rs):
             res.cases += 1
             res.count('class:' + cls)
